@@ -362,6 +362,16 @@ def d3(cx: Cx, ob: Ob) -> None:
             if any(op(x) == "call" and callee_name(x) == "all" for x in subterms(a)) and info[a][0]:
                 ob.violate(fn.qualname, where(fn, line), "get_subconverter requires ALL names of a record to be requested, not any", detail="all-vs-any")
             if not info[a][0] and any(y == tgt for y in subterms(a)):
+                folded = [y for y in subterms(a) if op(y) == "cmp" and y[1] in ("in", "==") and op(y[2]) == "call" and op(y[2][1]) == "attr" and y[2][1][2] in ("casefold", "lower", "upper", "strip", "title", "swapcase", "capitalize") and not y[2][2]]
+                if folded:
+                    ob.violate(
+                        fn.qualname,
+                        where(fn, line),
+                        f"get_subconverter selects by `{show(folded[0])[:60]}`: the names are compared after .{folded[0][2][1][2]}(), unconditionally - a record whose names merely look like a requested one (another spelling, which may belong to a different record) is kept as well, so the result holds records nobody asked for",
+                        witness="records GO and go: get_subconverter(['go']) returns both",
+                        detail=f"transformed-compare:{folded[0][2][1][2]}",
+                    )
+                    continue
                 ob.undecide(f"selection condition `{show(a)[:60]}` of get_subconverter not recognised")
         named = [a for a in atoms if info[a][0]]
         other = [a for a in atoms if not info[a][0]]
